@@ -1,4 +1,5 @@
 """C20 — quotations and links: flag/index pairing, links follow splits, unlink on delete, dependency checks."""
+import re
 from ylib import facts as F
 from .common import *  # noqa
 
@@ -97,6 +98,36 @@ def rule_b(R, ctx):
                         inserts.append(c)
             after = [c for c in inserts if c.fn is fn and c.bb in cfg.reachable_from(cs.bb)]
             ok = bool(lookups) and bool(after)
+            if ok:
+                # the looked-up link set must still be whole when it is copied: the local that holds it is never borrowed
+                # mutably (Option::take / mem::take between two splits would leave the second half without links)
+                holders = set()
+                for c in lookups:
+                    if c.fn is not fn:
+                        continue
+                    # follow the result of get(..) through cloned()/copied() to the local it is stored in
+                    cur = c.dest if isinstance(c.dest, int) else None
+                    for _ in range(4):
+                        if cur is None:
+                            break
+                        nxt = None
+                        for c2 in fn.calls():
+                            if c2.args and mir_root(fn, c2.args[0]) == ("local", cur) and re.search(r"Option(<.*>)?::(cloned|copied|clone)$", c2.name):
+                                nxt = c2.dest if isinstance(c2.dest, int) else None
+                        for i2, j2, st2 in fn.stmts():
+                            if isinstance(st2["dst"], int) and isinstance(st2["rv"].get("use"), dict) and \
+                                    st2["rv"]["use"].get("m", st2["rv"]["use"].get("c")) == cur:
+                                holders.add(st2["dst"])
+                        holders.add(cur)
+                        cur = nxt
+                taken = [(i2, st2["line"]) for i2, j2, st2 in fn.stmts() if "ref" in st2["rv"] and st2["rv"].get("mut") and
+                         isinstance(st2["rv"]["ref"], int) and st2["rv"]["ref"] in holders and fn.local_name(st2["rv"]["ref"])]
+                if taken:
+                    ok = False
+                    R.ob("C20.b", fn, site + ":source-intact", False,
+                         "the link set looked up for the split item is borrowed mutably (line %s) — taken or emptied — before every "
+                         "copy has been made: a half created by a later split keeps the LINKED flag but gets no linked_by entry" % taken[0][1], cs.loc())
+                    continue
             R.ob("C20.b", fn, site, ok,
                  ("links copied to the new half (lookups %d, insertions after the split %d)" % (len(lookups), len(after))) if ok else
                  "the item is split but its Store.linked_by entry is not copied to the new right half: the right half keeps the LINKED "
